@@ -78,17 +78,8 @@ func DoubleQuotesToBackTick(str string) (string, error) {
 						buffer.WriteString("``")
 						continue
 					}
-					if r == '\\' {
-						if i+1 == len(str) {
-							return "", fmt.Errorf("index out of range")
-						}
-						next := str[i+1]
-						if next == '"' {
-							buffer.WriteByte(next)
-							i++
-							continue
-						}
-					}
+					// a backslash is a character of the name like any other:
+					// a quote of the name is written doubled, not escaped
 					buffer.WriteByte(byte(r))
 				}
 				i--
